@@ -217,8 +217,16 @@ def txt_case(draw) -> Dict[str, Any]:
                     vb = (vb or b'') + b'\xfe' * pad
                     val = vb.hex()
                     vtype = 'bytes'
+        if mode != 'small' and vtype == 'none':
+            # a key without a value has no '=': the key itself may be as long as the item limit (254 or 255 bytes)
+            want = 254 if mode == 'limit254' else 255
+            pad = want - len(kb)
+            if pad > 0:
+                kb = kb + b'k' * pad
+                key = key + 'k' * pad if ktype == 'str' else kb.hex()
+                seen.add(kb.lower())
         items.append([ktype, key, vtype, val])
-        if draw(st.integers(0, 7)) == 0:
+        if len(kb) < 200 and draw(st.integers(0, 7)) == 0:
             # the same key once more in the other Python spelling ('k' and b'k' are two dictionary keys but one TXT key): both items
             # are encoded, and every reader of those bytes - the library included - keeps the first (RFC 6763 s6.4)
             try:
